@@ -51,6 +51,10 @@ def gen_rules(rng):
         if rng.random() < 0.3:
             r["trust_username"] = rng.choice(["yes", "no", "1", "0", "true", "on"])
         rules.append(r)
+    if rng.random() < 0.2:
+        # a plain setting between the rules: not a rule, must not be taken for one
+        nm = rng.choice([x for x in ("A0", "note", "mm", "0") if x.lower() not in [y["name"].lower() for y in rules]])
+        rules.insert(rng.randrange(len(rules) + 1), {"name": nm, "_plain": rng.choice(["trusted", "x", "10.0.0.0/8"])})
     return rules
 
 
